@@ -32,6 +32,7 @@ type syncResult struct {
 	Converged bool   `json:"converged"`
 	Synced    bool   `json:"syncedSignalled"`
 	Timeout   bool   `json:"timeout"`
+	Stalled   bool   `json:"stalled"` // connected to a peer with a preferred head for 20 s without adopting it
 	ValidBest bool   `json:"validBest"`
 	StoreOK   bool   `json:"storeOK"`
 	Imported  int    `json:"imported"`
@@ -79,6 +80,13 @@ func (e *env) runSyncPairs(n int, deep bool) {
 	// a block larger than the server's whole 512 KB reply budget, first in a reply
 	e.trunkTo(2)
 	add(e.bigScenario(2, 3, e.dataBlocks(e.trunk[2], []int{600 * 1024, 0, 0}, 7_000_000), "huge-first-A2-H3-R5"), fault{})
+	// forks tying exactly on total score, both id orders: the peer must be followed iff its id is the smaller one
+	for _, tsc := range e.tieScenarios(4) {
+		add(tsc, fault{})
+	}
+	for _, tsc := range e.tieScenarios(0) {
+		add(tsc, fault{})
+	}
 	hsc := e.newScenario(1, 2, 6, false)
 	for i, k := range []string{"undecodable", "invalid", "shiftback", "short", "struct", "dup", "orphan", "toolarge"} {
 		add(hsc, fault{k, 1 + 2 + i%3, i})
@@ -130,7 +138,8 @@ func (e *env) runSyncPairs(n int, deep bool) {
 		r.StoreOK = !holes && p.local.kv.Digest() == want
 		r.ValidBest = best == wantBest
 		out = append(out, *r)
-		e.emit(trace.Ev{"e": "SyncEnd", "case": p.label, "prefers": r.Prefers, "converged": r.Converged,
+		e.emit(trace.Ev{"e": "SyncEnd", "case": p.label, "prefers": r.Prefers, "converged": r.Converged, "stalled": r.Stalled,
+			"tie":       sc.remote[sc.R].Header().TotalScore() == sc.local[sc.H].Header().TotalScore(),
 			"validBest": r.ValidBest, "storeOK": r.StoreOK, "hostile": p.hostile.kind, "dropped": r.Dropped})
 		p.local.close()
 		if p.remote != nil {
@@ -175,7 +184,9 @@ func (e *env) runPair(i int, p *pair) {
 
 	target := sc.remote[sc.R].Header().ID()
 	prefers := sc.remote[sc.R].Header().BetterThan(sc.local[sc.H].Header())
-	deadline := time.Now().Add(45 * time.Second)
+	deadline := time.Now().Add(60 * time.Second)
+	const stallBound = 20 * time.Second
+	var handshake time.Time
 	settle := time.Now().Add(5 * time.Second)
 	faulty := func() int {
 		flog.mu.Lock()
@@ -212,6 +223,14 @@ loop:
 			time.Sleep(300 * time.Millisecond)
 			break loop
 		case <-time.After(50 * time.Millisecond):
+		}
+		if handshake.IsZero() && lc.PeerCount() > 0 {
+			handshake = time.Now() // the peer is in the peer set: every sync timer tick (2 s) may select it
+		}
+		if p.hostile.kind == "" && prefers && !handshake.IsZero() && time.Since(handshake) > stallBound {
+			// ten timer ticks with a connected peer whose head the fork choice prefers, and the node is still not on it
+			r.Stalled = true
+			break loop
 		}
 		if time.Now().After(deadline) {
 			r.Timeout = true
